@@ -135,8 +135,42 @@ def _exhaustive(tier):
                             "x": [0.5, -0.25, 1.0][:V],
                             "samples": [[pool[(p + 2 * r + idx) % len(pool)] for p in range(P)] for r in range(R)],
                             "table": table, "allow_nan": bool((idx // 5) % 2), "split": bool((idx // 7) % 2),
-                            "nan_col": col,
+                            "nan_col": col, "merge": False,
                         }
+
+
+def _exhaustive_merged(tier):
+    """merge_realizations = True (mean estimator only: the stddev estimator rejects merging): every failure subset
+    x both thresholds for 2x1 and 2x2 (thorough: also 3x2 and 2x3); filter, NaN column, weights and request mode
+    rotate with the case index."""
+    shapes = [(2, 1), (2, 2)]
+    if tier == "thorough":
+        shapes += [(3, 2), (2, 3)]
+    idx = 0
+    for R, P in shapes:
+        rng = random.Random(7000 + 1000 * R + P)
+        tables = {(no, nc): _base_table(rng, R, P, no, nc) for no, nc in ((1, 1), (2, 0))}
+        for mask in itertools.product([False, True], repeat=R * (1 + P)):
+            for rmin in range(R + 1):
+                for pmin in range(1, P + 1):
+                    idx += 1
+                    no, nc = ((1, 1), (2, 0))[idx % 2]
+                    V = 1 + (idx // 2) % 3
+                    col_idx = (idx // 3) % 2
+                    pool = POOL[V]
+                    yield {
+                        "stream": "exhaustive-merged", "R": R, "P": P, "V": V, "no": no, "nc": nc,
+                        "w": WEIGHTS[R][idx % len(WEIGHTS[R])], "ow": [1.0] if no == 1 else [0.25, 0.75],
+                        "lb": [-math.inf] * nc, "ub": [1.0] * nc,
+                        "ests": [["mean"], ["mean", "mean"]][(idx // 5) % 2],
+                        "oem": None if (idx // 5) % 2 == 0 else [1] * no, "cem": None,
+                        "filter": _filter(("none", "sort", "cvar")[(idx // 2) % 3], R, idx), "rmin": rmin, "pmin": pmin,
+                        "x": [0.5, -0.25, 1.0][:V],
+                        "samples": [[pool[(p + 2 * r + idx) % len(pool)] for p in range(P)] for r in range(R)],
+                        "table": _inject(tables[(no, nc)], mask, P, lambda r, s, ci=col_idx: [ci]),
+                        "allow_nan": bool((idx // 5) % 2), "split": bool((idx // 3) % 2),
+                        "nan_col": ("first", "other")[col_idx], "merge": True,
+                    }
 
 
 def _dy(rng, lo, hi, den=16):
@@ -177,8 +211,48 @@ def gen_sampled(rng):
         "pmin": rng.choice([None, 1, P + 3] + list(range(1, P + 1))),
         "x": [_dy(rng, -1, 1, 4) for _ in range(V)],
         "samples": samples, "table": table,
-        "allow_nan": rng.random() < 0.5, "split": rng.random() < 0.4, "nan_col": "random",
+        "allow_nan": rng.random() < 0.5, "split": rng.random() < 0.4, "nan_col": "random", "merge": False,
     }
+
+
+def gen_merged(rng):
+    """merge_realizations = True: one stacked least-squares system over all (realization, perturbation) rows.  Mostly
+    'balanced' failure patterns (whole realizations fail -- NaN unperturbed value or too few perturbations --, and every
+    survivor loses the same number of perturbations at positions of its own), for which the physically reduced ensemble
+    exists; otherwise random masks, judged against the twin run (see run_impl)."""
+    case = gen_sampled(rng)
+    R, P, no, nc = case["R"], case["P"], case["no"], case["nc"]
+    case["ests"] = rng.choice([["mean"], ["mean"], ["mean", "mean"], ["default"]])
+    case["oem"] = F._emap(rng, no, len(case["ests"]))
+    case["cem"] = F._emap(rng, nc, len(case["ests"])) if nc else None
+    case["merge"] = True
+    case["stream"] = "merged"
+    if R > 1 and rng.random() < 0.7:
+        ncols = no + nc
+        table = _base_table(rng, R, P, no, nc)
+        k = rng.randint(0, max(0, P - 1)) if rng.random() < 0.6 else 0       # perturbations lost by every survivor
+        pmin = rng.randint(1, P - k)
+        fail = set(rng.sample(range(R), rng.randint(1, R - 1)))
+        mask = [False] * (R * (1 + P))
+        for r in range(R):
+            if r in fail and (P - k < pmin or rng.random() < 0.5):
+                mask[r * (1 + P)] = True                                          # the unperturbed evaluation fails
+                lost = rng.sample(range(P), rng.randint(0, P))
+            elif r in fail:
+                lost = rng.sample(range(P), rng.randint(P - pmin + 1, P))         # too few perturbations succeed
+            else:
+                lost = rng.sample(range(P), k)
+            for p in lost:
+                mask[r * (1 + P) + 1 + p] = True
+        case["table"] = _inject(table, mask, P, lambda r, s: rng.sample(range(ncols), rng.choice([1, 1, min(2, ncols)])))
+        case["pmin"] = pmin
+        case["rmin"] = rng.choice([0, 1, 1, R - len(fail)])
+        if rng.random() < 0.3:
+            w = list(case["w"])
+            for r in fail:                 # also: the failed realizations are the ones with the large weights
+                w[r] = max(w) + 1.0
+            case["w"] = w
+    return case
 
 
 def gen_zero_weight_survivors(rng):
@@ -202,10 +276,13 @@ def gen_zero_weight_survivors(rng):
 
 def gen_cases(tier, rng):
     yield from _exhaustive(tier)
+    yield from _exhaustive_merged(tier)
     for _ in range(500 if tier == "quick" else 12000):
         yield gen_sampled(rng)
     for _ in range(60 if tier == "quick" else 1500):
         yield gen_zero_weight_survivors(rng)
+    for _ in range(250 if tier == "quick" else 6000):
+        yield gen_merged(rng)
 
 
 # ---------------------------------------------------------------------------------------------------
@@ -279,7 +356,8 @@ def _config(case, *, w, samples, rmin, pmin, filt, x=None):
         "realizations": {"weights": w},
         "objectives": {"weights": case["ow"]},
         "function_estimators": [{"method": m} for m in case["ests"]],
-        "gradient": {"number_of_perturbations": P, "perturbation_magnitudes": 1.0},
+        "gradient": {"number_of_perturbations": P, "perturbation_magnitudes": 1.0,
+                     "merge_realizations": bool(case.get("merge", False))},
         "samplers": [{"method": "verif/inject", "options": {"samples": samples}}],
         "optimizer": {"method": "verif/script", "options": {"allow_nan": case["allow_nan"], "split": case["split"]}},
     }
@@ -302,11 +380,12 @@ def _config(case, *, w, samples, rmin, pmin, filt, x=None):
     return cfg
 
 
-def _evaluator(case, rmap, pmaps):
+def _evaluator(case, rmap, pmaps, table=None):
     """table-driven evaluator; rmap: run realization -> table realization, pmaps[i]: run perturbation -> table one"""
     import numpy as np
     from ropt.evaluator import EvaluatorResult
-    no, nc, table = case["no"], case["nc"], case["table"]
+    no, nc = case["no"], case["nc"]
+    table = case["table"] if table is None else table
 
     def evaluator(variables, ctx):
         n = variables.shape[0]
@@ -332,6 +411,60 @@ def _grads_obs(g):
 
 def _has_nan(row):
     return any(math.isnan(v) for v in row[0] + row[1])
+
+
+def _g_obs(g):
+    gr = g.realizations
+    return {"failed": [bool(v) for v in gr.failed_realizations],
+            "ow": None if gr.objective_weights is None else gr.objective_weights.tolist(),
+            "cw": None if gr.constraint_weights is None else gr.constraint_weights.tolist(),
+            "grads": None if g.gradients is None else _grads_obs(g.gradients)}
+
+
+def _calculate(ee, x, split):
+    """one evaluation of functions and gradients: jointly, or as a function request followed by a gradient-only
+    request at the same point on the same object (the path that re-uses the cached function results)"""
+    if split:
+        (f,) = ee.calculate(x, compute_functions=True, compute_gradients=False)
+        (g,) = ee.calculate(x, compute_functions=False, compute_gradients=True)
+        return f, g
+    return ee.calculate(x, compute_functions=True, compute_gradients=True)
+
+
+def _twin(case, failed_fn, failed_g):
+    """The same ensemble with everything that must be inert replaced by other finite numbers: all non-NaN values and all
+    perturbation samples of realizations that fail for the functions, the perturbation values and samples of
+    realizations that fail only for the gradient, and the non-NaN values and the samples of failed perturbations of the
+    survivors.  The NaN pattern is unchanged."""
+    def other(row):
+        return [[v if math.isnan(v) else 2.5 - 0.5 * v for v in row[0]], [v if math.isnan(v) else 2.5 - 0.5 * v for v in row[1]]]
+
+    table, samples = [], []
+    for r, ent in enumerate(case["table"]):
+        u = other(ent["u"]) if failed_fn[r] else ent["u"]
+        ps, ss = [], []
+        for p, row in enumerate(ent["p"]):
+            smp = case["samples"][r][p]
+            if failed_g[r] or _has_nan(row):
+                ps.append(other(row))
+                ss.append([1.0 - 0.5 * a for a in smp])
+            else:
+                ps.append(row)
+                ss.append(smp)
+        table.append({"u": u, "p": ps})
+        samples.append(ss)
+    return table, samples
+
+
+def _same(a, b):
+    """structural equality with NaN == NaN"""
+    if isinstance(a, float) and isinstance(b, float):
+        return (math.isnan(a) and math.isnan(b)) or a == b
+    if isinstance(a, dict) and isinstance(b, dict):
+        return a.keys() == b.keys() and all(_same(a[k], b[k]) for k in a)
+    if isinstance(a, list) and isinstance(b, list):
+        return len(a) == len(b) and all(_same(u, v) for u, v in zip(a, b))
+    return a == b
 
 
 def run_impl(case):
@@ -360,15 +493,12 @@ def run_impl(case):
     # ---- full run
     ee = EnsembleEvaluator(config, None, _evaluator(case, ident, pident), pm)
     full_ow = None
+    split, merge = bool(case.get("split")), bool(case.get("merge"))
     try:
-        f, g = ee.calculate(x, compute_functions=True, compute_gradients=True)
+        f, g = _calculate(ee, x, split)
         obs["outcome"] = "results"
         obs["f"] = F._result_obs(f, nc)
-        gr = g.realizations
-        obs["g"] = {"failed": [bool(v) for v in gr.failed_realizations],
-                    "ow": None if gr.objective_weights is None else gr.objective_weights.tolist(),
-                    "cw": None if gr.constraint_weights is None else gr.constraint_weights.tolist(),
-                    "grads": None if g.gradients is None else _grads_obs(g.gradients)}
+        obs["g"] = _g_obs(g)
         full_ow = obs["f"]["ow"]
     except OptimizationAborted as e:
         obs["outcome"] = "abort"
@@ -441,12 +571,12 @@ def run_impl(case):
                               rmin=0, pmin=1, filt=None)
                 ee3 = EnsembleEvaluator(EnOptConfig.model_validate(cfg), None,
                                         _evaluator(case, gkeep, [okp[r] for r in gkeep]), pm)
-                _, rg = ee3.calculate(x, compute_functions=True, compute_gradients=True)
+                _, rg = _calculate(ee3, x, split)
                 if rg.gradients is not None:
                     obs["red_g"] = _grads_obs(rg.gradients)
             except OptimizationAborted:
                 pass
-        else:
+        elif not merge:
             single = dict(case, ests=["mean"], oem=None, cem=None)
             for r in gkeep:
                 if in_force[r] == 0:
@@ -457,17 +587,49 @@ def run_impl(case):
                 go = _grads_obs(sg.gradients)
                 obs["per_real"][r] = [go["objs"], go["cons"]]
 
-    # ---- end to end: optimizer step (scripted optimizer) and evaluator step
+    # ---- the twin ensemble: everything that belongs to a failed realization or a failed perturbation (values in the
+    #      other columns, perturbation samples) replaced by other numbers; nothing reported may change
+    obs["twin"] = None
+    if obs["outcome"] == "results" and (merge or case["stream"] != "exhaustive") and any(failed_g + [len(o) < P for o in okp]):
+        ttable, tsamples = _twin(case, failed_fn, failed_g)
+        tcfg = _config(case, w=case["w"], samples=tsamples, rmin=case["rmin"], pmin=case["pmin"], filt=case["filter"])
+        try:
+            ee5 = EnsembleEvaluator(EnOptConfig.model_validate(tcfg), None, _evaluator(case, ident, pident, ttable), pm)
+            tf, tg = _calculate(ee5, x, split)
+            obs["twin"] = {"functions": F._result_obs(tf, nc)["functions"], "failed": [bool(v) for v in tg.realizations.failed_realizations],
+                           "grads": None if tg.gradients is None else _grads_obs(tg.gradients)}
+        except OptimizationAborted:
+            obs["twin"] = {"abort": True}
+
+    # ---- end to end: optimizer step (scripted optimizer) and evaluator step; what the steps deliver to an observer
+    #      of FINISHED_EVALUATION must be the results of the evaluation
+    from ropt.enums import EventType
+    from ropt.results import FunctionResults
+
     def run_step(name):
-        plan = Plan(OptimizerContext(evaluator=_evaluator(case, ident, pident), plugin_manager=pm))
+        delivered = []
+
+        def on_results(event):
+            for r in event.data["results"]:
+                delivered.append(["f", F._result_obs(r, nc)] if isinstance(r, FunctionResults) else ["g", _g_obs(r)])
+
+        ctx = OptimizerContext(evaluator=_evaluator(case, ident, pident), plugin_manager=pm)
+        ctx.add_observer(EventType.FINISHED_EVALUATION, on_results)
+        plan = Plan(ctx)
         step = plan.add_step(name)
         try:
-            return int(plan.run_step(step, config=full_cfg, variables=case["x"]).value)
+            return int(plan.run_step(step, config=full_cfg, variables=case["x"]).value), delivered
         except Exception:  # noqa: BLE001 - any escaping exception is reported as exit code -1
-            return -1
+            return -1, delivered
 
-    obs["opt_exit"] = run_step("optimizer")
-    obs["eval_exit"] = run_step("evaluator")
+    def delivery(delivered):
+        differs = [[k, o] for k, o in delivered if obs["outcome"] == "results" and not _same(o, obs[k])]
+        return {"kinds": "".join(k for k, _ in delivered), "differs": differs[:1]}
+
+    obs["opt_exit"], delivered = run_step("optimizer")
+    obs["opt_delivery"] = delivery(delivered)
+    obs["eval_exit"], delivered = run_step("evaluator")
+    obs["eval_delivery"] = delivery(delivered)
     return obs
 
 
@@ -506,6 +668,11 @@ def magnitude(case, obs):
             for v in row:
                 if not math.isnan(v) and not math.isinf(v):
                     m = max(m, abs(v))
+    if obs.get("twin") and obs["twin"].get("grads"):
+        for row in obs["twin"]["grads"]["objs"] + obs["twin"]["grads"]["cons"] + [obs["twin"]["grads"]["w"]]:
+            for v in row:
+                if not math.isnan(v) and not math.isinf(v):
+                    m = max(m, abs(v))
     for pr in obs["per_real"]:
         if pr:
             for row in pr[0] + pr[1]:
@@ -533,7 +700,16 @@ def coq_case(case, obs):
                                        f"{_fvals_term(rf['functions'])}))")
     red_g = "None" if obs["red_g"] is None else f"(Some {_grads_term(obs['red_g'])})"
     per = cq.lst("None" if p is None else f"(Some ({cq.qmat(p[0])}, {cq.qmat(p[1])}))" for p in obs["per_real"])
-    return ("(Chk_C03.Build_case {S} {cfg} {rr} {rp} {P} {V} {rows} {prows} {fouts} {full} {red_f} {red_g} {per} {an} {oe} {ee})".format(
+    tw = obs.get("twin")
+    if tw is None:
+        twin = "TwinNone"
+    elif tw.get("abort"):
+        twin = "TwinAbort"
+    else:
+        twin = (f"(Twin {'None' if tw['functions'] is None else '(Some ' + _fvals_term(tw['functions']) + ')'} {cq.bs(tw['failed'])} "
+                f"{'None' if tw['grads'] is None else '(Some ' + _grads_term(tw['grads']) + ')'})")
+    return ("(Chk_C03.Build_case {S} {cfg} {rr} {rp} {P} {V} {mg} {rows} {prows} {fouts} {full} {red_f} {red_g} {per} {twin} {an} {oe} {ee})".format(
+        mg=cq.b(bool(case.get("merge"))), twin=twin,
         S=cq.q(S), cfg=F.cfg_term(_cfg_case(case), obs), rr=cq.opt(case["rmin"], cq.nat), rp=cq.opt(case["pmin"], cq.nat),
         P=cq.nat(case["P"]), V=cq.nat(case["V"]), rows=rows, prows=prows,
         fouts=cq.lst(F._fout(f) for f in obs["fouts"]), full=full, red_f=red_f, red_g=red_g, per=per,
@@ -559,13 +735,19 @@ def oracle(case, obs):
     pmin = P if case["pmin"] is None or case["pmin"] > P else case["pmin"]
     if (obs["cfg"]["rmin"], obs["cfg"]["pmin"]) != (rmin, pmin):
         return {"clause": "thresholds", "detail": [obs["cfg"], rmin, pmin]}
-    if obs["outcome"] == "raise":
-        return {"clause": "unexpected-exception", "detail": obs.get("exc")}
     failed_fn = [_has_nan(e["u"]) for e in table]
     okp = [sum(1 for p in e["p"] if not _has_nan(p)) for e in table]
     failed_g = [failed_fn[r] or okp[r] < pmin for r in range(R)]
     gate_f = failed_fn.count(False) >= rmin
     gate_g = failed_g.count(False) >= rmin
+    if obs["outcome"] == "raise":
+        # Outside the quantifier (no realization that succeeds for the gradient carries weight in force: 0/0): with
+        # merge_realizations the stacked system is then empty and the solver raises (reported as a finding, C14 family).
+        wf = obs["fouts"][0][1] if obs["fouts"] and obs["fouts"][0][0] == "w" else obs["cfg"]["w"]
+        if case.get("merge") and gate_g and obs["fouts"][:1] != [["abort"]] \
+                and sum(wf[r] for r in range(R) if not failed_g[r]) == 0:
+            return None
+        return {"clause": "unexpected-exception", "detail": obs.get("exc")}
     S = magnitude(case, obs)
     stddev_used = any(F._ekind(m) == "Stddev" for m in case["ests"])
     filter_abort = any(f[0] == "abort" for f in obs["fouts"])
@@ -622,6 +804,29 @@ def oracle(case, obs):
                             return {"clause": "gradient-is-renormalised-mean-of-surviving-realizations",
                                     "detail": {"group": grp, "function": j, "variable": v,
                                                "got": g["grads"][grp][j][v], "expected": want}}
+    # as if absent: nothing that belongs to a failed realization or a failed perturbation (its values in the other
+    # columns, its perturbation samples) influences what is reported
+    tw = obs.get("twin")
+    if tw is not None:
+        if tw.get("abort") or tw["failed"] != g["failed"] or (tw["functions"] is None) != (f["functions"] is None) \
+                or (tw["grads"] is None) != (g["grads"] is None):
+            return {"clause": "failed-entries-influence-the-outcome", "detail": {"twin": tw, "failed": g["failed"]}}
+        if f["functions"] is not None:
+            a, b = f["functions"], tw["functions"]
+            if not all(_close(x, y, S) for x, y in zip(a["objs"] + a["cons"] + [a["w"]], b["objs"] + b["cons"] + [b["w"]])):
+                return {"clause": "failed-entries-influence-the-functions", "detail": {"full": a, "twin": b}}
+        if g["grads"] is not None:
+            if not all(_close(x, y, S) for x, y in zip(_flat_g(g["grads"]), _flat_g(tw["grads"]))):
+                return {"clause": "failed-entries-influence-the-gradients", "detail": {"full": g["grads"], "twin": tw["grads"]}}
+    # the steps deliver the results of the evaluation to the observers of FINISHED_EVALUATION
+    od, ed = obs.get("opt_delivery"), obs.get("eval_delivery")
+    if od is not None:
+        if od["differs"] or ed["differs"]:
+            return {"clause": "step-delivers-the-results-of-the-evaluation",
+                    "detail": {"optimizer": od["differs"], "evaluator": ed["differs"]}}
+        want = "fg" if obs["opt_exit"] == OPT_DONE or not case.get("split") else od["kinds"]
+        if ed["kinds"] != "f" or not od["kinds"].startswith("f") or od["kinds"] != want:
+            return {"clause": "step-delivers-one-result-per-request", "detail": {"optimizer": od["kinds"], "evaluator": ed["kinds"]}}
     return None
 
 
@@ -641,12 +846,16 @@ def features(case, obs):
         how = "reduced-run"
     elif any(p is not None for p in obs["per_real"]):
         how = "per-realization"
+    elif obs.get("twin") and obs["twin"].get("grads"):
+        how = "twin-only"
     return {"stream": case["stream"], "RxP": f"{case['R']}x{case['P']}", "failed_slots": n if n < 4 else "4+",
             "filter": "none" if case["filter"] is None else case["filter"]["method"],
             "estimators": "+".join(case["ests"]), "outcome": obs["outcome"],
             "functions_reported": obs["outcome"] == "results" and obs["f"]["functions"] is not None,
             "gradients_reported": obs["outcome"] == "results" and obs["g"]["grads"] is not None,
-            "gradient_reference": how, "opt_exit": obs["opt_exit"], "nan_col": case["nan_col"]}
+            "gradient_reference": how, "opt_exit": obs["opt_exit"], "nan_col": case["nan_col"],
+            "merge": bool(case.get("merge")), "request": "function-then-gradient" if case.get("split") else "joint",
+            "twin_run": obs.get("twin") is not None}
 
 
 def known_signature(case, obs, violation):
